@@ -139,6 +139,7 @@ type byteOpts struct {
 func checkBytes(r *mon.Run, tg *target, b []byte, ri *refInfo, o byteOpts) (accepted bool) {
 	// hot path: no per-case heap allocation for the witness (children are single-threaded;
 	// Guard / Violation marshal the witness immediately)
+	mark(tg, pmBytes, b, 0)
 	cur = Case{Mode: "bytes", Type: tg.Name, Input: b, Origin: o.origin}
 	p := reflect.New(tg.T)
 	var err error
@@ -240,6 +241,7 @@ func clip(b []byte) []byte {
 // judged in BOTH directions against the reference grammar.
 
 func checkUntyped(r *mon.Run, b []byte, ri *refInfo, origin string) {
+	mark(nil, pmUntyped, b, 0)
 	curU = Case{Mode: "untyped", Input: b, Origin: origin}
 	c := &curU
 	// Split
@@ -415,12 +417,20 @@ func walkEnc(v interface{}) []byte {
 // ---------------------------------------------------------------------------
 // (6) allocation oracle. Single-threaded callers only.
 
+// The design's first guess (64 bytes per input byte) is below what a correct
+// decoder needs for interface{} targets: every 1-byte element (0xc0, 0x80, 0x05)
+// costs a boxed slice header, an interface slot (x3 over the 1.5x growth of the
+// enclosing slice) and a reflect-allocated header, 100-130 bytes in total
+// (measured: observed.max_alloc_ratio_x100_inputs_ge16B). The bound stays
+// linear in the input; a decoder that trusts a declared length exceeds it by
+// orders of magnitude from a 9-byte input.
 const (
-	allocPerByte = 64
+	allocPerByte = 256
 	allocSlack   = 4096
 )
 
 func checkAlloc(r *mon.Run, tg *target, b []byte, origin string) {
+	mark(tg, pmAlloc, b, 0)
 	c := Case{Mode: "alloc", Type: tg.Name, Input: b, Origin: origin}
 	p := reflect.New(tg.T)
 	var m0, m1 runtime.MemStats
@@ -486,6 +496,7 @@ func (p *plainReader) ReadByte() (byte, error)    { return p.r.ReadByte() }
 // unknown length must still return a value or an error and not allocate beyond
 // what it was given.
 func checkReader(r *mon.Run, tg *target, b []byte, origin string) {
+	mark(tg, pmReader, b, 0)
 	c := Case{Mode: "reader", Type: tg.Name, Input: b, Origin: origin}
 	p0 := reflect.New(tg.T)
 	err0 := rlp.DecodeBytes(b, p0.Interface())
@@ -539,6 +550,7 @@ func genTarget(r *mon.Run, tg *target, idx int) reflect.Value {
 		t = reflect.TypeOf(TxMirror{})
 	}
 	p := reflect.New(t)
+	genBudget = 200 << 10
 	genValue(rng, p.Elem(), 0, false)
 	return p
 }
@@ -552,6 +564,7 @@ func checkValue(r *mon.Run, tg *target, idx int) []byte {
 		panic(rerr)
 	}
 	c.Input = want
+	mark(tg, pmValue, want, idx)
 	cnt[c_value_roundtrips]++
 	if tg.Tx {
 		checkTxValue(r, tg, c, p.Interface().(*TxMirror), want)
